@@ -476,6 +476,27 @@ pub fn case(t: &mut Tape, scratch: &Scratch, budget_ms: u128, slow: &std::cell::
     if t.chance(1, 12) {
         manifest = mutate_string(&manifest, t);
         labels.push("manifest-mutation".into());
+    } else if t.chance(1, 10) {
+        // boundary configurations: empty / single-element / degenerate values of each field
+        let section = "[package.metadata.leptos-i18n]\n";
+        let def = p.default_locale().to_string();
+        let all: Vec<String> = p.locales.iter().map(|l| format!("{l:?}")).collect();
+        let body = match t.pick(12) {
+            0 => format!("default = {def:?}\nlocales = [{}]\nnamespaces = []\n", all.join(", ")),
+            1 => format!("default = {def:?}\nlocales = []\n"),
+            2 => format!("default = {def:?}\nlocales = [{def:?}]\n"),
+            3 => format!("default = {def:?}\nlocales = [{}]\ninherits = {{}}\n", all.join(", ")),
+            4 => format!("default = {def:?}\nlocales = [{}]\nnamespaces = [\"{}\"]\n", all.join(", "), p.namespaces.as_ref().and_then(|n| n.first().cloned()).unwrap_or_else(|| "only".into())),
+            5 => format!("default = {def:?}\nlocales = [{}]\nlocales-dir = \"\"\n", all.join(", ")),
+            6 => format!("default = \"\"\nlocales = [{}]\n", all.join(", ")),
+            7 => format!("locales = [{}]\n", all.join(", ")),
+            8 => format!("default = {def:?}\nlocales = [{}]\nnamespaces = [\"\"]\n", all.join(", ")),
+            9 => format!("default = {def:?}\nlocales = [{}]\nlocales-dir = \".\"\ntranslations-uri = \"\"\n", all.join(", ")),
+            10 => format!("default = {def:?}\nlocales = [\"\", {}]\n", all.join(", ")),
+            _ => format!("default = {def:?}\nlocales = [{}]\nnamespaces = []\ninherits = {{ {def:?} = {def:?} }}\n", all.join(", ")),
+        };
+        manifest = format!("[package]\nname = \"generated\"\nversion = \"0.1.0\"\nedition = \"2021\"\n\n{section}{body}");
+        labels.push("boundary-configuration".into());
     }
     let style = Style {
         format: Format::Json,
